@@ -224,6 +224,9 @@ func c19(ctx *Ctx) {
 		ctx.Monitor("C19/harness-error", "race-enabled harness binary missing", nil)
 		return
 	}
+	// "results equal to some sequential order of the same calls": copies of one handshake
+	// presented to the replay history at the same instant must have exactly one winner
+	replayConcurrentWinners(ctx, "C19/not-linearizable:ReplayCache.Add")
 	scs := []string{"replay", "cipherlist", "listeners", "metrics"}
 	for k := range c19extra {
 		scs = append(scs, k)
